@@ -14,7 +14,7 @@ From Anthem Require Import Base.ISet Syntax.Fol Syntax.Asp Sem.Domain Sem.Sat Se
   Model.Problem Model.Outline Model.Strong Model.External Model.Tightness Model.PrivRec Model.TauStar
   Model.Completion Model.StrategyCls Model.ExternalFull
   Proofs.SemBase Proofs.DecomposeOk Proofs.StrongOk Proofs.ExternalOk Proofs.AssemblyOk Proofs.RenameOk
-  Proofs.C02Ok Proofs.FagesBridge Proofs.PlaceholderOk Proofs.C02Full.
+  Proofs.C02Ok Proofs.FagesBridge Proofs.PlaceholderOk Proofs.C02Full Proofs.TightnessOk Proofs.PrivateUnique.
 Open Scope string_scope.
 Open Scope list_scope.
 
@@ -105,6 +105,49 @@ Theorem C02_modulo_private_uniqueness :
         ext_stable_full t FI (reindex (task_mapping t) M) (et_program t) /\ ~ ext_stable_full t FI M L)).
 Proof. exact C02_full_proof. Qed.
 Print Assumptions C02_modulo_private_uniqueness.
+
+(* (d) uniqueness of the private extension, at the level of programs.
+   priv_supported M P priv := every private predicate holds in M exactly on the tuples derived by
+   one of its rules from M (the reading C04_clark gives to the completed definitions of the private
+   predicates; no choice heads, since there is no private choice).
+   For a program without private recursion, two interpretations that agree on the non-private
+   predicates of the program and are both supported on the private ones agree on the private ones. *)
+Theorem C02_private_extension_unique :
+  forall (P : program) (priv : list pred) (M1 M2 : pint),
+    has_private_recursion P priv = false ->
+    (forall q, In q (program_preds P) -> ~ In q priv -> agree_on M1 M2 q) ->
+    priv_supported M1 P priv -> priv_supported M2 P priv ->
+    forall p, In p priv -> agree_on M1 M2 p.
+Proof. exact private_extension_unique. Qed.
+Print Assumptions C02_private_extension_unique.
+
+(* every model of completion(tau*(P)) is supported on the private predicates ... *)
+Theorem C02_completion_priv_supported :
+  forall (FI : fint) (P : program) (G D : theory) (ins priv : list pred) (M : pint),
+    represents FI G P -> completion G ins = Some D ->
+    ~ private_choice P priv ->
+    (forall p, In p priv -> In p (program_preds P) /\ ~ In p ins) ->
+    (forall f, In f D -> cvalid FI M f) ->
+    priv_supported M P priv.
+Proof. exact completion_priv_supported. Qed.
+Print Assumptions C02_completion_priv_supported.
+
+(* ... hence, behaviourally: for a tight program without private recursion, two external stable
+   models (same input predicates) that agree on the non-private predicates are equal - the public
+   part of an external stable model determines its private part. *)
+Theorem C02_external_model_determined_by_public_part :
+  forall (P : program) (G : theory) (ins priv : list pred) (FI : fint) (T1 T2 : pint),
+    is_tight P = true ->
+    (forall r h, In r P -> head_pred (rhead r) = Some h -> ~ In h ins) ->
+    tau_star P = Some G ->
+    has_private_recursion P priv = false ->
+    (forall p, In p priv -> In p (program_preds P) /\ ~ In p ins) ->
+    over_vocabulary T1 P ins -> over_vocabulary T2 P ins ->
+    stable T1 P (input_facts T1 ins) -> stable T2 P (input_facts T2 ins) ->
+    (forall p d, ~ In (mkpred p (List.length d)) priv -> (T1 p d <-> T2 p d)) ->
+    forall p d, T1 p d <-> T2 p d.
+Proof. exact stable_private_determined. Qed.
+Print Assumptions C02_external_model_determined_by_public_part.
 
 (* ---------------- non-vacuity: an accepted task, computed entirely in the model ---------------- *)
 Definition av (x : string) : term := TVar x.
